@@ -8,7 +8,8 @@ const char* RULE =
     "sparse/dense/integers/dyadics/log-uniform magnitudes up to 2^+-1000, Hermitian matrices, scalars). Oracles: GetGSLMatrix vs the "
     "closed-form Gell-Mann model entry-wise (16 eps * sum of |c_k| feeding the entry), exact Hermiticity, vector->matrix->vector and "
     "matrix->vector->matrix round trips, list round trip bit-exact, + - unary- *s s* /= *= += -= bit-equal to IEEE component arithmetic and "
-    "linear on the library's own matrices, Transpose/Real/Imag against the model, operator== iff same dimension and equal components. "
+    "linear on the library's own matrices, operators applied to unevaluated expression objects (expr-expr, expr+expr, expr-v, expr+v, expr*s, -expr, "
+    "expr*expr, expr.Evolve) bit-equal to step-by-step evaluation, Transpose/Real/Imag against the model, operator== iff same dimension and equal components. "
     "Non-trivial: at least two non-zero slots of different kinds (identity/symmetric/antisymmetric/diagonal) or a Hermitian matrix with a "
     "non-zero imaginary off-diagonal entry; distinct by digest of consumed bytes. classes slot<d>.<k> count how often each component slot "
     "was non-zero in a checked conversion.";
@@ -49,7 +50,7 @@ static void check_matrix_of(const SU_vector& v, const std::vector<double>& c, in
 
 void run_case(ByteSource& s, CaseInfo& ci) {
   int d = gen_dim(s);
-  unsigned sub = s.choose(7);
+  unsigned sub = s.choose(8);
   std::string pat;
   switch (sub) {
     case 0: {  // vector -> matrix (-> vector)
@@ -196,6 +197,55 @@ void run_case(ByteSource& s, CaseInfo& ci) {
       SU_vector sum = re + im;
       for (int i = 0; i < d * d; i++) CHECK(sum[i] == c[i], fmt("C01|RealImag|do-not-sum-to-vector|d=%d", d), "d=%d slot %d: %.17g + %.17g != %.17g", d, i, re[i], im[i], c[i]);
       CHECK(comps(v) == c, "C01|RealImag|operand-modified", "d=%d", d);
+      break;
+    }
+    case 7: {  // nested expressions: operators applied to unevaluated expression objects
+      std::vector<double> a = gen_components(s, d, &pat, 200), b = gen_components(s, d, nullptr, 200), c = gen_components(s, d, nullptr, 200);
+      double x = s.num(100), y = s.num(100);
+      unsigned form = s.choose(10);
+      static const char* names[] = {"(x*a)-(y*b)", "(x*a)+(y*b)", "(a+b)-c", "(a+b)+c", "(a-b)*x", "-(a+b)", "-(x*a)", "(x*a)*(y*b) scalar product", "(a+b).Evolve(h,t)", "(a+b).Evolve(x*h,t)"};
+      ci.label(std::string("nested-") + names[form]); ci.nontrivial = two_kinds(a, d) && count_nonzero(b) > 0;
+      ci.sample = fmt("nested %s d=%d a=%s b=%s c=%s x=%.17g y=%.17g", names[form], d, vec_str(a).c_str(), vec_str(b).c_str(), vec_str(c).c_str(), x, y);
+      SU_vector A = make_vec(a, d), B = make_vec(b, d), C = make_vec(c, d);
+      std::vector<double> want(d * d);
+      SU_vector R;
+      std::string sig = std::string("C01|nested|") + names[form];
+      if (form <= 6) {
+        for (int i = 0; i < d * d; i++) switch (form) {
+          case 0: want[i] = x * a[i] - y * b[i]; break;
+          case 1: want[i] = x * a[i] + y * b[i]; break;
+          case 2: want[i] = (a[i] + b[i]) - c[i]; break;
+          case 3: want[i] = (a[i] + b[i]) + c[i]; break;
+          case 4: want[i] = (a[i] - b[i]) * x; break;
+          case 5: want[i] = -(a[i] + b[i]); break;
+          default: want[i] = -(x * a[i]); break;
+        }
+        switch (form) {
+          case 0: R = (x * A) - (y * B); break;
+          case 1: R = (x * A) + (y * B); break;
+          case 2: R = (A + B) - C; break;
+          case 3: R = (A + B) + C; break;
+          case 4: R = (A - B) * x; break;
+          case 5: R = -(A + B); break;
+          default: { auto p = x * A; R = -p; break; }
+        }
+        CHECK((int)R.Dim() == d, sig + "|dim", "d=%d", d);
+        for (int i = 0; i < d * d; i++)
+          CHECK(bit_equal(R[i], want[i]) || (want[i] == 0 && R[i] == 0) || (std::isnan(want[i]) && std::isnan(R[i])), sig + "|not-componentwise", "d=%d slot %d lib=%.17g ieee=%.17g :: %s", d, i, R[i], want[i], ci.sample.c_str());
+      } else if (form == 7) {
+        SU_vector X = x * A, Y = y * B;
+        double naive = X * Y, got = (x * A) * (y * B);
+        CHECK(bit_equal(naive, got) || (std::isnan(naive) && std::isnan(got)), sig + "|differs-from-evaluated-operands", "%.17g vs %.17g :: %s", got, naive, ci.sample.c_str());
+      } else {
+        std::vector<double> h(d * d, 0.0); for (int m = 1; m < d; m++) h[d * m + m] = s.num(3);
+        double t = 2 * s.dense();
+        SU_vector H = make_vec(h, d), T = A + B;
+        SU_vector naive, got;
+        if (form == 8) { naive = T.Evolve(H, t); got = (A + B).Evolve(H, t); }
+        else { SU_vector XH = x * H; naive = T.Evolve(XH, t); got = (A + B).Evolve(x * H, t); }
+        for (int i = 0; i < d * d; i++) CHECK(bit_equal(naive[i], got[i]) || (std::isnan(naive[i]) && std::isnan(got[i])), sig + "|differs-from-evaluated-operands", "slot %d %.17g vs %.17g :: %s", i, got[i], naive[i], ci.sample.c_str());
+      }
+      CHECK(comps(A) == a && comps(B) == b && comps(C) == c, sig + "|operand-modified", "d=%d", d);
       break;
     }
     default: {  // equality
